@@ -36,7 +36,7 @@ CHECKS = {
             "4x6/5x8, x PTM1/2/3 x ihmax x requested count (below/equal/above detected) x wind/depth/agefac/wscut menus (full 324-config "
             "product on a structured 3x4 family), at numpy level and through the accessor on (time)/(time,site)/(lat,lon) layouts, "
             "numpy- and dask-backed, smoothing on/off, and back-to-back call sequences over every ordered pair of 6 equal-shape grids with "
-            "different coordinates: bin-is-input-or-zero, disjointness, exact sum, count, wind-sea rule, Hs order.",
+            "different coordinates, frequency grids ending above and below 0.333 Hz, 144/289/324-basin lattices asked for more, slightly fewer and far fewer partitions than found: bin-is-input-or-zero, disjointness, exact sum, count, wind-sea rule, Hs order.",
             "The label map is taken from specpart.partition (C04's subject) and celerity from the library (C01's subject). Classification "
             "clauses are don't-care within 1e-9 of a threshold.",
             "3 C03"),
@@ -50,13 +50,13 @@ CHECKS = {
             "3 C05"),
     "C12": ("exploration", "fmt", "exhaustive enumeration of native-convention datasets built by independent encoders, bin-by-bin against the physical truth",
             "A physical truth E(f,theta_from) on enumerated small grids is encoded by independent encoders into the WW3, SWAN-netCDF, WWM, "
-            "ERA5 and NDBC conventions (all direction orders, every subset of optional variables, lon/lat layouts, backings, dtypes, native dimensions with and without index coordinate variables); "
+            "ERA5 and NDBC conventions (all direction orders, every subset of optional variables, lon/lat layouts, backings, dtypes, native dimensions with and without index coordinate variables, with and without any attribute metadata); "
             "read_dataset and from_<model> must return the wavespectra convention with every bin density/direction, the variance, winds "
             "and labels equal to the truth, and must not modify the caller's dataset.",
             "In-memory datasets only (netCDF4/zarr are not installed, so the file-opening halves cannot run).",
             "3 C12"),
     "C13": ("exploration", "fmt", "exhaustive enumeration of synthetic files written by independent format encoders, decoded values vs encoder inputs",
-            "Independent text encoders for SWAN ASCII (all header/block variants), TRIAXYS, NDBC ASCII (realtime/history), Spotter CSV/JSON, "
+            "Independent text encoders for SWAN ASCII (all header/block variants; direction listings unsorted, rotated, descending and ascending-as-written beyond [0,360)), TRIAXYS, NDBC ASCII (realtime/history), Spotter CSV/JSON, "
             "Datawell, Obscape and WW3 station files generate files from enumerated contents (records in every order, sizes, value "
             "patterns, header variants, one/several files); times, freq, dir, positions and densities read back must equal the encoder "
             "inputs to the printed resolution, sorted by time; for 1D+moments readers the direction integral must give back E(f).",
@@ -64,7 +64,7 @@ CHECKS = {
             "3 C13"),
     "C19": ("model_checking", "hist", "exhaustive enumeration of partition histories plus explicit-state BFS over tracking states, executed on the real function",
             "Every history of P partitions x T steps over a threshold-relative cell alphabet (P<=3,T<=3 quick; larger thorough; one alphabet with directions written in other 360-degree windows) x 18 "
-            "parameter/wind configurations runs through np_track_partitions and is checked against the statement's invariants with "
+            "parameter/wind configurations (plus wind series that change between steps, calm steps and gaps in the wind record) runs through np_track_partitions and is checked against the statement's invariants with "
             "independently recomputed thresholds; a layered BFS over (last row, id pattern) states to T=6 re-executes the real function "
             "for every transition and checks prefix-closure and state-determinism; track_partitions on site batches and ptm1_track end to end.",
             "Only 'only-if' clauses are demanded (a carried id must be within thresholds), never an obligation to continue; cases within "
@@ -72,10 +72,10 @@ CHECKS = {
             "3 C19"),
     "C20": ("exploration", "cdrv", "exhaustive enumeration of grid shapes x spectra x level counts under ASan/UBSan plus a degenerate-input menu over all public operations",
             "Native: a driver linked with the repo's specpart.c and built with clang ASan+UBSan runs every grid shape 1x1..8x8 (complete "
-            "structured families, full products on small shapes, tiny/huge value ranges) x ihmax {1..1000} round-robin over shapes so "
+            "structured families, full products on small shapes, tiny/huge value ranges) x ihmax {1..1000} (and 65536, 2**20+1, 3e6 on three shapes) round-robin over shapes so "
             "the static buffers are reallocated at every call, with a per-call watchdog; any sanitizer report, timeout, crash or input "
             "modification is a violation. Python: ~75 public operations (incl. transform-then-statistic chains on spectra without a direction dimension) x degenerate spectra x grids nf{1..9} x nd{1..4} x layouts must "
-            "not raise; 24 invalid-argument classes must raise ValueError.",
+            "not raise; the extension on two-hump grids above a million bins (1100x1000, 1x1.2e6, 1.2e6x1); 24 invalid-argument classes must raise ValueError.",
             "The python wrapper runs without sanitizers (crashes/hangs are still caught by the worker watchdog). hp01, plotting, fits and "
             "file IO are outside this check. ASan leak checking is off (known one-buffer leak per shape change).",
             "3 C20"),
@@ -88,12 +88,12 @@ CHECKS = {
             "celerity() is taken from the library (C01). Cases within 1e-9 of a float boundary are don't-care unless equality is exact.",
             "3 C09"),
     "C18": ("model_checking", "hist", "exhaustive operation-history exploration (all sequences to depth 3/4) on live objects vs fresh-interpreter references",
-            "Every sequence up to depth 2 over a 23-operation alphabet (accessor calls incl. one that exercises every observed function and failing stats() calls with band limits, spectral fits on an array holding unfittable spectra, "
-            "in-place edits of efth/dir/freq by item assignment, through .coords and by writing into .values, watershed calls on other "
-            "shapes incl. the transposed shape of the observed spectra and an empty selection, another object, reader calls incl. one whose result is edited) plus depth 3 over a reduced "
+            "Every sequence up to depth 2 over a 26-operation alphabet (accessor calls incl. one that exercises every observed function and failing stats() calls with band limits, spectral fits on an array holding unfittable spectra, "
+            "in-place edits of efth/dir/freq/station positions by item assignment, through .coords and by writing into .values, watershed calls on other "
+            "shapes incl. the transposed shape of the observed spectra and an empty selection, another object, wind-sea partitions of an array whose frequency axis shares length and end points with the observed one, reader calls incl. one whose result is edited) plus depth 3 over a reduced "
             "13-operation alphabet with at least one edit (thorough: full alphabet to depth 3, reduced to depth 4) is executed on freshly "
-            "built objects in a freshly forked child; an observation battery (Dataset accessor, efth accessor, DataArray accessor, values "
-            "and attrs) is compared with the battery computed in a fresh interpreter on a fresh object of the same contents (32 content states).",
+            "built objects in a freshly forked child; an observation battery (Dataset accessor, efth accessor, DataArray accessor, station selection with the dataset's own positions, partitions with and without wind, values "
+            "and attrs) is compared with the battery computed in a fresh interpreter on a fresh object of the same contents (64 content states).",
             "Hidden state reachable only through operations outside the alphabet is not explored.",
             "3 C18"),
     "C10": ("exploration", "bex", "bounded exhaustive enumeration of spectra x scale factors x relabelling angles, metamorphic relations and bounds",
@@ -123,7 +123,7 @@ CHECKS = {
             "Every layout of 0-3 non-spectral dimensions from {time, site, lat, lon, part} in every order with sizes in {1,2,3}, filled from "
             "a menu of 30 pairwise distinct spectra with per-position wind/depth; for ~45 operations the batch result at every position "
             "must equal the result on the extracted single spectrum (with all-distinct wind/depth fields and with fields in which positions "
-            "share wind or depth), replacing one spectrum must leave all other positions bitwise unchanged, all 900 ordered pairs of menu spectra on a 2-position layout, and Dataset accessor == efth accessor.",
+            "share wind or depth), replacing one spectrum must leave all other positions bitwise unchanged, all 900 ordered pairs of menu spectra on a 2-position layout, Dataset accessor == efth accessor, and fit_jonswap / fit_gaussian / alpha / gamma / tp / fp on every ordered pair and (a, unfittable, b) triple of an 11-spectrum menu on 26 frequencies (fittable, unfittable, peakless, unresolved tail) against the lone result.",
             "Quick covers all 0/1/2-dim layouts and every 4th 3-dim layout, and 12 operations for the ordered pairs. gamma/alpha/fp are "
             "compared at 2e-6 (float32-derived). Partitioning an already partitioned layout is out of domain.",
             "3 C06"),
@@ -148,7 +148,7 @@ CHECKS = {
             "3 C08"),
     "C11": ("exploration", "fmt", "exhaustive enumeration of datasets x writer options, written with the real writers and read back with the real readers, compared position by position",
             "Datasets = times {1,2,3} x station/grid layouts (incl. co-located stations and north-to-south latitude rows) x nf x nd x direction orders x magnitude-class assignments (zero, NaN, 1e-8..1e4, "
-            "mixed; every spectrum distinguishable) x wind/depth x dtype; SWAN ASCII (plain/gz, ntime), JSON, wavespectra netCDF-3 "
+            "mixed; every spectrum distinguishable) x wind/depth x dtype, plus 1 and 1.5 degree direction grids and 150-step records with odd-second time stamps across a year boundary; SWAN ASCII (plain/gz, ntime), JSON, wavespectra netCDF-3 "
             "(packed/unpacked, two readers), WW3 netCDF-3, Octopus (plain/gz, ntime), Funwave; times, positions, lon/lat, freq, dir and "
             "efth must come back at each format's printed resolution, zero as zero and NaN as missing.",
             "Only the netCDF-3 (scipy) path can run here: NETCDF4/zarr back ends are not installed. Winds/depth are written but not compared.",
